@@ -88,6 +88,10 @@ pub use memory::{
     MemoryRange,
 };
 
+/// Verification hook: re-export of the ownership registers type.
+#[cfg(feature = "verif-hooks")]
+pub use memory::OwnershipRegisters;
+
 use crate::checked_transaction::{
     CreateCheckedMetadata,
     EstimatePredicates,
@@ -270,6 +274,12 @@ impl<M, S, Tx, Ecal, V> Interpreter<M, S, Tx, Ecal, V> {
 
     pub(crate) fn call_stack(&self) -> &[CallFrame] {
         self.frames.as_slice()
+    }
+
+    /// Verification hook: read-only view of the internal free balances.
+    #[cfg(feature = "verif-hooks")]
+    pub fn verif_balances(&self) -> &RuntimeBalances {
+        &self.balances
     }
 
     /// Debug handler
